@@ -93,7 +93,7 @@ Fixpoint can_complete (s : stmt) : bool :=
   match s with
   | SReturn | SRaise | SBreak | SContinue => false
   | SIf b e => can_complete_b b || can_complete_b e
-  | SLoop forever b e => negb forever
+  | SLoop k b e => negb (is_forever k)
   | SWith sup b => can_complete_b b || sup
   | STry b hs e f => ((can_complete_b b && can_complete_b e) || can_complete_hs hs) && can_complete_b f
   | _ => true
@@ -110,7 +110,7 @@ Fixpoint upper_ok_s (s : stmt) : bool :=
   match s with
   | SBreak | SContinue => false
   | SIf b e => upper_ok_b b && upper_ok_b e
-  | SLoop forever b e => negb forever && is_nil e && upper_ok_b b
+  | SLoop k b e => is_cond k && is_nil e && upper_ok_b b
   | SWith _ b => upper_ok_b b
   | STry b hs e f => upper_ok_b b && upper_ok_hs hs && upper_ok_b e && is_nil f
                      && (can_complete_b b || is_nil e) && negb (is_nil b)
